@@ -5,7 +5,7 @@ from vlib import Case
 
 ID = "C19"
 COQ_DIRS = ["Common", "C19"]
-COQ_TARGETS = ["C19/Props.vo", "C19/Run.vo"]
+COQ_TARGETS = ["C19/Props.vo", "C19/Run.vo", "C19/ShellRun.vo"]
 PROPS_MODULES = ["C19.Props"]
 RUN_MODULE = "C19.Run"
 RUN_FN = "run_case"
@@ -282,6 +282,18 @@ def e2e_case(rng, cid):
     return Case(cid, ops)
 
 
+def shell_model_ops(c, o):
+    """ops for the shell model: the scenario, plus the backend the implementation's load balancer picked"""
+    ops = []
+    for op, ob in zip(c.ops, o["obs"]):
+        if op[0] == "send":
+            bi = ob[3] if len(ob) >= 4 and isinstance(ob[3], int) and ob[3] >= 0 else 0
+            ops.append(["send", op[1], op[2], bi])
+        else:
+            ops.append(op)
+    return ops
+
+
 def e2e_corpus():
     d = os.path.join(vlib.ROOT, "corpus", ID, "e2e")
     out = []
@@ -335,7 +347,7 @@ def extra_stage(tier, rng, work):
             viols.append((c, "panic", o["panic"]))
         for (vc, vt) in o["viol"]:
             viols.append((c, vc, vt))
-        delivered += sum(1 for ob in o["obs"] if len(ob) >= 4 and ob[0] == "send")
+        delivered += sum(1 for ob in o["obs"] if len(ob) >= 4 and ob[0] == "send" and ob[2] == 1)
     for c in e2e_corpus():
         o = couts.get(c.id)
         if o is not None and (any(v[0] not in KNOWN_OPEN for v in o["viol"]) or o["panic"] is not None):
@@ -345,7 +357,25 @@ def extra_stage(tier, rng, work):
             if o2 is not None and (any(v[0] not in KNOWN_OPEN for v in o2["viol"]) or o2["panic"] is not None):
                 for (vc, vt) in [v for v in o2["viol"] if v[0] not in KNOWN_OPEN][:1] or [("panic", o2["panic"] or "")]:
                     viols.append((c, "panic-checked", "debug build: " + vt))
-    return dict(failures=failures, viols=viols, coverage=dict(e2e_cases=len(cases), e2e_datagrams_delivered=delivered, e2e_retried=retried))
+    # the shell MODEL (coq/C19/Shell.v) against the real shell: same scenarios, the load balancer's
+    # choice copied from the observation, everything else predicted (ShellRun.v)
+    mism = []
+    modelled = [c for c in cases if c.id in outs and not outs[c.id]["viol"] and outs[c.id]["panic"] is None
+                and not any(op[0] == "bounce" for op in c.ops)]
+    if modelled:
+        mism, mprob = vlib.correspond(modelled, outs, "C19.ShellRun", "run_shell_case", os.path.join(work, "e2e_model"),
+                                      ops_of=shell_model_ops)
+        failures += mprob
+        if mism:      # real time, real ports: confirm on a second, solitary run
+            again = [c for c in modelled if c.id in mism]
+            o2, _ = vlib.run_harness("c19e", again, os.path.join(work, "e2e_retry"), "release", timeout=600, shards=1)
+            again = [c for c in again if c.id in o2]
+            mism, mprob = vlib.correspond(again, o2, "C19.ShellRun", "run_shell_case", os.path.join(work, "e2e_model"),
+                                          ops_of=shell_model_ops)
+            for cid in mism[:3]:
+                failures.append("shell model C19.ShellRun.run_shell_case differs from lib/src/udp.rs on e2e scenario %s: impl obs %s"
+                                % (cid, o2[cid]["obs"]))
+    return dict(failures=failures, viols=viols, coverage=dict(shell_model_scenarios=len(modelled), shell_model_agree=len(modelled) - len(mism), e2e_cases=len(cases), e2e_datagrams_delivered=delivered, e2e_retried=retried))
 
 
 LEVEL_TEXT = ("Machine-checked proof (Coq 8.16) over an executable model of the sans-io UDP flow core (UdpManager + UdpFlow "
